@@ -84,6 +84,13 @@ func (r *runner) runHarness(hs harnessSpec) (*harnessResult, error) {
 		cfg.StepBudget = hs.Budget
 	}
 	cfg.MapOrder = hs.MapOrder
+	for orig, repl := range hs.Redirects {
+		f := sp.Func(repl)
+		if f == nil {
+			return nil, fmt.Errorf("redirect target %s not found in %s", repl, pp)
+		}
+		cfg.Redirects[orig] = f
+	}
 	ex := &interp.Explorer{Cfg: cfg, Entry: entry, Workers: r.workers, Seed: r.seed, SampleN: r.sampleN, MaxPaths: hs.MaxPaths}
 	if r.verbose {
 		ex.OnResult = func(pr *interp.PathResult) {
@@ -190,6 +197,8 @@ func (r *runner) runHarness(hs harnessSpec) (*harnessResult, error) {
 		}
 		if v.Reproduced {
 			hr.Violations = append(hr.Violations, v)
+		} else if hs.SpuriousOK {
+			hr.Spurious = append(hr.Spurious, v)
 		} else if !strings.HasPrefix(k, "unwind:") {
 			hr.Unreproduced = append(hr.Unreproduced, v)
 		}
@@ -539,6 +548,7 @@ func writeEvidence(vd, prop, tier string, seed int64, spec *checkSpec, results [
 		harnesses = append(harnesses, map[string]interface{}{
 			"harness": hr.Spec.Fn, "params": hr.Params, "paths": st.Paths, "paths_by_outcome": st.ByOutcome, "fork_decisions": st.Forks,
 			"solver_decided_forks": st.SymForks, "interpreted_instructions": st.Steps, "max_instructions_on_a_path": st.MaxSteps, "step_budget": budgetOf(hr),
+			"spurious_counterexamples": len(hr.Spurious),
 			"queries": st.Queries, "wall_s": round1(hr.Wall.Seconds()), "validated_natively": hr.Validated, "cover_labels": st.Covers, "violations": viols, "note": hr.Spec.Note,
 		})
 	}
